@@ -288,7 +288,11 @@ Proof.
   unfold checkin_failed; intros r fwc s x s' H H1 H2.
   destruct (rec_invalidate cf r false s) as [[|e] s1] eqn:E1; pose proof (rec_invalidate_rl _ _ _ _ _ _ E1) as R.
   - eapply rec_checkin_A; [exact H| |]; intros Hf; eapply A_rl; eauto.
-  - inv H. left. apply tc_taint. eapply rec_invalidate_raise; eauto.
+  - (* a BaseException escaped close(): the check-in still happens (try/finally); tainted *)
+    destruct (rec_checkin cf r fwc s1) as [w s2] eqn:E2.
+    assert (s' = s2) by (destruct w; inv H; auto). subst s2.
+    left. eapply Mono_taint_true; [eapply rec_checkin_mono; eauto|].
+    apply tc_taint. eapply rec_invalidate_raise; eauto.
 Qed.
 
 End Acc.
